@@ -24,7 +24,7 @@ struct DefCtx {
   char *dup(const std::string &s) { char *p = (char *) malloc(s.size() + 1); memcpy(p, s.c_str(), s.size() + 1); blocks.push_back(p); return p; }
   void release() { for (void *p : blocks) { free(p); } blocks.clear(); }
 };
-static DefCtx g_def;
+inline DefCtx g_def;
 
 static const char *cb_read_terminal(int *code) {
   if (g_def.ti >= g_def.g->terms.size()) return NULL;
@@ -90,7 +90,7 @@ struct Tracker {
   }
   bool is_live_start(const void *p) const { auto it = idx.find((void *) p); return it != idx.end() && blks[it->second].state == 1; }
 };
-static Tracker g_trk;
+inline Tracker g_trk;
 // Freed blocks are not returned to malloc until reset(): addresses stay unique per case,
 // so "freed twice" and "reachable but freed" are decidable exactly.
 static void *trk_alloc(int n) {
@@ -119,8 +119,8 @@ struct Flags { int la = 1, one = 1, cost = 0, rec = 1, match = 3, debug = 0; };
 
 static const uintptr_t ATTR_BASE = 0x10000;
 struct TokCtx { const std::vector<int> *codes; size_t i; };
-static TokCtx g_tok;
-static std::vector<SynErr> g_synerrs;
+inline TokCtx g_tok;
+inline std::vector<SynErr> g_synerrs;
 static int cb_read_token(void **attr) {
   if (g_tok.i >= g_tok.codes->size()) { *attr = NULL; return -1; }
   *attr = (void *) (ATTR_BASE + g_tok.i);
@@ -132,7 +132,7 @@ static long attr_to_idx(void *a, int ntoks) {
   if (v >= ATTR_BASE && v < ATTR_BASE + (uintptr_t) ntoks) return (long) (v - ATTR_BASE);
   return -2;
 }
-static int g_ntoks_for_cb;
+inline int g_ntoks_for_cb;
 static void cb_syntax_error(int e, void *ea, int i, void *ia, int r, void *ra) {
   g_synerrs.push_back(SynErr{e, i, r, attr_to_idx(ea, g_ntoks_for_cb), attr_to_idx(ia, g_ntoks_for_cb), attr_to_idx(ra, g_ntoks_for_cb)});
 }
